@@ -18,9 +18,12 @@ try:
     from_props = subprocess.run(['/venv/bin/python', '-c', "from bqsa import props; print(' '.join(sorted(props.PROPS)))"],
                                 cwd='/verif', capture_output=True, text=True).stdout.split()
     for p in from_props:
-        r = subprocess.run(['./check', p, '--repo', wt, '--no-evidence'], cwd='/verif', capture_output=True, text=True)
+        fj = f'/tmp/findings-{os.getpid()}-{p}.json'
+        r = subprocess.run(['./check', p, '--repo', wt, '--no-evidence', '--no-battery', '--findings-json', fj], cwd='/verif', capture_output=True, text=True)
         if r.returncode:
-            rules = sorted({w for l in r.stdout.splitlines() if l.startswith('  ') for w in l.split()[:3] if w.startswith('R-')})
+            rules = sorted({x['rule'] for x in json.load(open(fj)) if not x.get('known')}) if os.path.exists(fj) else ['ANALYSIS-ERROR']
+        if os.path.exists(fj):
+            os.remove(fj)
             checks[p] = {'exit': r.returncode, 'rules': rules}
 finally:
     subprocess.run(['git', '-C', '/repo', 'worktree', 'remove', '--force', wt])
